@@ -683,6 +683,21 @@ mod verif_driver_compile {
                 }
             }
         }
+        // a byte string of any length is ONE byte string holding exactly those bytes (how the CBOR layer splits long strings
+        // into chunks is its own business and invisible to a decoder)
+        for len in [0usize, 1, 28, 32, 63, 64, 65, 66, 127, 128, 129, 130, 200, 256, 1000] {
+            n += 1;
+            let bytes: Vec<u8> = (0..len).map(|i| (i * 7 + 3) as u8).collect();
+            let e = tir::Expression::Bytes(bytes.clone());
+            for (path, r) in [("compile_data_expr", quiet(|| compile_data_expr(&e))), ("try_as_data", quiet(|| e.try_as_data()))] {
+                match r {
+                    Ok(Ok(primitives::PlutusData::BoundedBytes(b))) => if b.to_vec() != bytes {
+                        witness("c09_cardano/bytes::as_data#postcondition", "as_data", format!("byte string of length {len} via {path}"), format!("{} bytes", b.len()), "the same bytes");
+                    },
+                    other => witness("c09_cardano/bytes::as_data#postcondition", "as_data", format!("byte string of length {len} via {path} class=long-byte-string"), format!("{other:?}").chars().take(100).collect(), "one byte string holding exactly these bytes"),
+                }
+            }
+        }
         println!("VERIF-CASES fn=compile_struct n={n}");
         println!("VERIF-CASES fn=compile_data_expr n={n}");
         println!("VERIF-CASES fn=as_data n={n}");
@@ -867,6 +882,100 @@ mod verif_driver_compile {
             }
         }
         println!("VERIF-CASES fn=entry_point n={n}");
+    }
+
+    // ---- C02 (whole body): every quantity a reduced template writes - fee, lovelace and token amount of an output, mint and
+    // burn amount, both validity slots, every withdrawal amount, the donation - arrives in the body a standard decoder reads
+    // back, exactly, with an entry for every item written (nothing dropped, whatever the amount).  A value the field cannot
+    // hold can only give Err (any Ok is compared exactly).
+    // BOUND: one template, 10 quantity positions x 13 boundary values (one position varied at a time).
+    #[test]
+    fn body_quantities_arrive_exactly() {
+        let mut n = 0;
+        let p = |k: u32| 1i128 << k;
+        let set: Vec<i128> = vec![0, 1, 23, 24, 255, 256, 65535, 65536, p(32) - 1, p(32), p(63) - 1, p(63), p(64) - 1];
+        let addr = |k: u8| { let mut a = vec![0x61u8]; a.extend(vec![k; 28]); tir::Expression::Address(a) };
+        let reward = |k: u8| { let mut a = vec![0xe0u8]; a.extend(vec![k; 28]); tir::Expression::Address(a) };
+        let uref = |t: u8, i: u32| tx3_tir::model::core::UtxoRef { txid: vec![t; 32], index: i };
+        let pparams = PParams {
+            network: Network::Testnet, min_fee_coefficient: 44, min_fee_constant: 155381, coins_per_utxo_byte: 4310,
+            cost_models: HashMap::from([(0u8, vec![0i64; 166]), (1u8, vec![0i64; 175]), (2u8, vec![0i64; 251])]),
+        };
+        const NAMES: [&str; 10] = ["fee", "output lovelace", "output token amount", "mint amount", "burn amount", "validity since", "validity until", "first withdrawal", "second withdrawal", "donation"];
+        let base: [i128; 10] = [321_000, 3_000_000, 4, 4, 1, 100, 200, 5, 6, 7];
+        // largest value each position can hold (and whether zero is a value the position can hold)
+        let max: [i128; 10] = [p(64) - 1, p(64) - 1, p(64) - 1, p(63) - 1, p(63), p(64) - 1, p(64) - 1, p(64) - 1, p(64) - 1, p(64) - 1];
+        let zero_ok: [bool; 10] = [true, true, false, false, false, true, true, true, true, false];
+        for pos in 0..10 {
+            for v in &set {
+                n += 1;
+                let mut q = base;
+                q[pos] = *v;
+                let mut tx = empty_tx();
+                tx.fees = num(q[0]);
+                tx.inputs = vec![tir::Input { name: "a".into(), utxos: tir::Expression::UtxoRefs(vec![uref(0x33, 1)]), redeemer: tir::Expression::None }];
+                tx.outputs = vec![
+                    tir::Output { address: addr(3), datum: tir::Expression::None, amount: tir::Expression::Assets(vec![ada(q[1]), tok(2, "B", q[2])]), optional: false },
+                    tir::Output { address: addr(1), datum: tir::Expression::None, amount: tir::Expression::Assets(vec![ada(2_000_000)]), optional: false },
+                ];
+                tx.mints = vec![mint_of(vec![tok(2, "B", q[3])])];
+                tx.burns = vec![mint_of(vec![tok(1, "A", q[4])])];
+                tx.validity = Some(tir::Validity { since: num(q[5]), until: num(q[6]) });
+                tx.adhoc = vec![
+                    adhoc("withdrawal", vec![("credential", reward(8)), ("amount", num(q[7])), ("redeemer", tir::Expression::None)]),
+                    adhoc("withdrawal", vec![("credential", reward(4)), ("amount", num(q[8])), ("redeemer", tir::Expression::None)]),
+                    adhoc("treasury_donation", vec![("coin", num(q[9]))]),
+                ];
+                let input = format!("{}={v} (the other quantities: fee 321000, output 3000000 lovelace + 4 tokens, mint 4, burn 1, validity 100..200, withdrawals 5 and 6, donation 7)", NAMES[pos]);
+                let holds = *v <= max[pos] && (*v != 0 || zero_ok[pos]);
+                let bytes = match quiet(|| entry_point(&tx, &pparams).map(|t| pallas::codec::minicbor::to_vec(&t).unwrap())) {
+                    Err(pn) => { witness("c02_cardano/entry_point#reachable-panic", "entry_point", input, format!("panic:{pn}"), "Ok or Err"); continue; }
+                    Ok(Err(e)) => {
+                        if holds { witness("c02_cardano/entry_point#quantities", "entry_point", format!("{input} class=representable-rejected"), format!("Err({e})").chars().take(120).collect(), "a value the field can hold is compiled"); }
+                        continue;
+                    }
+                    Ok(Ok(b)) => b,
+                };
+                let decoded: primitives::Tx = match pallas::codec::minicbor::decode(&bytes) { Ok(d) => d, Err(e) => { witness("c02_cardano/entry_point#quantities", "entry_point", input, format!("payload does not decode: {e}"), "a payload the standard decoder accepts"); continue; } };
+                let b = &decoded.transaction_body;
+                let mut got: Vec<String> = vec![];
+                let mut want: Vec<String> = vec![];
+                want.push(format!("fee={}", q[0]));
+                got.push(format!("fee={}", b.fee));
+                // first output: lovelace and the one token
+                let (coin, toks): (i128, Vec<(u8, i128)>) = match b.outputs.first() {
+                    Some(primitives::TransactionOutput::PostAlonzo(o)) => match &o.value {
+                        primitives::Value::Coin(c) => (*c as i128, vec![]),
+                        primitives::Value::Multiasset(c, ma) => (*c as i128, ma.iter().flat_map(|(pol, m)| m.iter().map(move |(_, a)| (pol[0], u64::from(*a) as i128))).collect()),
+                    },
+                    _ => (-1, vec![]),
+                };
+                // an amount of zero is no tokens at all: the entry may be left out (its value is still exact)
+                want.push(format!("output={} lovelace + tokens {:?}", q[1], if q[2] == 0 { vec![] } else { vec![(2u8, q[2])] }));
+                got.push(format!("output={} lovelace + tokens {:?}", coin, toks));
+                let mut mint: Vec<(u8, i128)> = b.mint.iter().flat_map(|ma| ma.iter()).flat_map(|(pol, m)| m.iter().map(move |(_, a)| (pol[0], i64::from(*a) as i128))).collect();
+                mint.sort();
+                want.push(format!("mint={:?}", vec![(1u8, -q[4]), (2u8, q[3])]));
+                got.push(format!("mint={:?}", mint));
+                want.push(format!("validity={:?}..{:?}", Some(q[5]), Some(q[6])));
+                got.push(format!("validity={:?}..{:?}", b.validity_interval_start.map(|x| x as i128), b.ttl.map(|x| x as i128)));
+                let mut wd: Vec<(u8, i128)> = b.withdrawals.iter().flat_map(|m| m.iter()).map(|(k, c)| (k[1], *c as i128)).collect();
+                wd.sort();
+                want.push(format!("withdrawals={:?}", vec![(4u8, q[8]), (8u8, q[7])]));
+                got.push(format!("withdrawals={:?}", wd));
+                want.push(format!("donation={:?}", Some(q[9])));
+                got.push(format!("donation={:?}", b.donation.map(|d| u64::from(d) as i128)));
+                for (g, w) in got.iter().zip(want.iter()) {
+                    if g != w {
+                        let class = if !holds { "outside-the-field" } else if g.len() < w.len() { "quantity-dropped" } else { "quantity-changed" };
+                        witness("c02_cardano/entry_point#quantities", "entry_point", format!("{input} class={class}"), g.clone(), &format!("{w} (or Err when the field cannot hold the value)"));
+                    }
+                }
+            }
+        }
+        println!("VERIF-CASES fn=entry_point n={n}");
+        println!("VERIF-CASES fn=compile_withdrawals n={n}");
+        println!("VERIF-CASES fn=compile_tx_body n={n}");
     }
 
     // ---- C10 (reproducibility): collateral inputs come out in template order, the same in every compilation.
